@@ -886,7 +886,11 @@ func execXell(x string, pre, seed []byte) (out string) {
 		if err == nil {
 			ds = fvHex(dx)
 		}
-		out = hex.EncodeToString(ub[:]) + hex.EncodeToString(tb[:]) + " " + ds
+		okx := "bad"
+		if err == nil && dx.Equals(fieldVal(x)) {
+			okx = "ok"
+		}
+		out = hex.EncodeToString(ub[:]) + hex.EncodeToString(tb[:]) + " " + ds + " " + okx
 	})
 	return
 }
